@@ -1,48 +1,64 @@
 #!/bin/bash
-# usage: lib/seedtest.sh <PROP> <n> [tier]   — confirm a seeded change and run the property's check against it
+# usage: lib/seedtest.sh <PROP> <n> [tier]
+# Confirms a seeded change and runs the property's check against it — in an ISOLATED sandbox
+# (/tmp/seedbox/{verif,repo} = copies of the committed /verif and of /repo HEAD), so that /repo itself is
+# never modified and other work can go on.  Results are copied to /verif/seeded/<PROP>-<n>/.
 # inputs: /tmp/seed/<PROP>-out/change<n>/{patch.diff,demo*.rs,notes.md}; scratch worktree /tmp/seed/<PROP>
 set -u
 P=$1; N=$2; TIER=${3:-quick}
 SRC=/tmp/seed/$P-out/change$N
+[ -d $SRC ] || SRC=/verif/seeded/$P-$N
 WT=/tmp/seed/$P
 DST=/verif/seeded/$P-$N
+BOX=/tmp/seedbox-$P-$N
 mkdir -p $DST
-cp $SRC/patch.diff $DST/patch.diff
+[ $SRC = $DST ] || cp $SRC/patch.diff $DST/patch.diff
 DEMO=$(ls $SRC/demo*.rs | head -1)
-cp $DEMO $DST/$(basename $DEMO)
-cp $SRC/notes.md $DST/notes.md 2>/dev/null
+[ $SRC = $DST ] || cp $DEMO $DST/$(basename $DEMO)
+[ $SRC = $DST ] || cp $SRC/notes.md $DST/notes.md 2>/dev/null
 export CARGO_NET_OFFLINE=true
-cd $WT && git checkout -q -- . && git clean -fdq
-# demo passes without the change
-cp $DEMO tests/seed_demo.rs
-cargo test --offline --test seed_demo > $DST/demo_clean.log 2>&1; DEMO_CLEAN=$?
-git apply $DST/patch.diff || { echo "patch does not apply in worktree"; exit 2; }
-cargo test --offline --test seed_demo > $DST/demo_changed.log 2>&1; DEMO_CHANGED=$?
-rm tests/seed_demo.rs
-cargo test --workspace --no-fail-fast --offline > $DST/suite_changed.log 2>&1; SUITE=$?
-git checkout -q -- . && git clean -fdq
-echo "confirm: demo_clean_rc=$DEMO_CLEAN demo_changed_rc=$DEMO_CHANGED suite_changed_rc=$SUITE"
-# run the check against /repo with the change applied
-cd /verif
-if ! git -C /repo apply --check $DST/patch.diff 2>/dev/null; then echo "patch does not apply to /repo HEAD"; CHECK_RC=-1; else
-git -C /repo apply $DST/patch.diff
-./check $P --tier $TIER > $DST/check_$TIER.log 2>&1; CHECK_RC=$?
-git -C /repo checkout -- .
+DEMO_CLEAN=-1; DEMO_CHANGED=-1; SUITE=-1
+if [ -d $WT ]; then
+  cd $WT && git checkout -q -- . && git clean -fdq
+  cp $DST/$(basename $DEMO) tests/seed_demo.rs
+  cargo test --offline --test seed_demo > $DST/demo_clean.log 2>&1; DEMO_CLEAN=$?
+  git apply $DST/patch.diff || { echo "patch does not apply in worktree"; }
+  cargo test --offline --test seed_demo > $DST/demo_changed.log 2>&1; DEMO_CHANGED=$?
+  rm tests/seed_demo.rs
+  cargo test --workspace --no-fail-fast --offline > $DST/suite_changed.log 2>&1; SUITE=$?
+  git checkout -q -- . && git clean -fdq
+  echo "confirm: demo_clean_rc=$DEMO_CLEAN demo_changed_rc=$DEMO_CHANGED suite_changed_rc=$SUITE"
+fi
+# sandbox: committed /verif + /repo HEAD, harness pointed at the sandbox repo
+rm -rf $BOX; mkdir -p $BOX
+git -C /repo worktree add -q --detach $BOX/repo HEAD
+git -C /verif worktree add -q --detach $BOX/verif HEAD
+sed -i "s#path = \"/repo\"#path = \"$BOX/repo\"#" $BOX/verif/harness/Cargo.toml
+sed -i "s#/verif/harness/target#$BOX/verif/harness/target#" $BOX/verif/harness/.cargo/config.toml
+# reuse compiled Lean objects (read-only copy) so the sandbox does not rebuild the proofs from scratch
+mkdir -p $BOX/verif/lean/.lake && cp -r /verif/lean/.lake/build $BOX/verif/lean/.lake/build 2>/dev/null
+cd $BOX/verif
+if ! git -C $BOX/repo apply --check $DST/patch.diff 2>/dev/null; then echo "patch does not apply to /repo HEAD"; CHECK_RC=-1; else
+git -C $BOX/repo apply $DST/patch.diff
+MDIT_REPO=$BOX/repo ./check $P --tier $TIER > $DST/check_$TIER.log 2>&1; CHECK_RC=$?
 fi
 grep -E "^(VIOLATION|KNOWN|OK|BROKEN)" $DST/check_$TIER.log | cut -c1-400
+for f in $DST/*.log; do tail -c 3000 $f > $f.tmp && mv $f.tmp $f; done
 python3 - <<PY
 import json,os
 meta=dict(property="$P", change=$N, source="independent sub-agent given only the property text and a scratch worktree",
-  demo_passes_without_change=($DEMO_CLEAN==0), demo_fails_with_change=($DEMO_CHANGED!=0), suite_passes_with_change=($SUITE==0),
+  demo_passes_without_change=($DEMO_CLEAN==0), demo_fails_with_change=($DEMO_CHANGED not in (0,-1)), suite_passes_with_change=($SUITE==0),
   check_tier="$TIER", check_rc=$CHECK_RC, detected=($CHECK_RC==1),
-  ran=["cargo test --offline --test seed_demo (clean / changed)", "cargo test --workspace --no-fail-fast --offline (changed)", "./check $P --tier $TIER with the patch applied to /repo, then git checkout -- ."])
+  ran=["cargo test --offline --test seed_demo (clean / changed)", "cargo test --workspace --no-fail-fast --offline (changed)", "./check $P --tier $TIER in a sandbox copy of /verif against a copy of /repo HEAD with the patch applied"])
 p="$DST/meta.json"
 old=json.load(open(p)) if os.path.exists(p) else {}
 old.setdefault('runs',[]).append(meta)
-old.update({k:v for k,v in meta.items() if k not in ('check_tier','check_rc','detected')})
-old['detected_by_quick']=old.get('detected_by_quick') or ("$TIER"=="quick" and $CHECK_RC==1)
-old['detected_by_thorough']=old.get('detected_by_thorough') or ("$TIER"=="thorough" and $CHECK_RC==1)
+keep={k:v for k,v in meta.items() if k not in ('check_tier','check_rc','detected')}
+if $DEMO_CLEAN==-1: keep={k:v for k,v in keep.items() if not k.startswith('demo_') and not k.startswith('suite_')}
+old.update(keep)
+old['detected_by_quick']=bool(old.get('detected_by_quick') or ("$TIER"=="quick" and $CHECK_RC==1))
+old['detected_by_thorough']=bool(old.get('detected_by_thorough') or ("$TIER"=="thorough" and $CHECK_RC==1))
 json.dump(old,open(p,'w'),indent=1)
 PY
-rm -rf /verif/replay
+cd /; git -C /repo worktree remove --force $BOX/repo; git -C /verif worktree remove --force $BOX/verif; rm -rf $BOX; git -C /repo worktree prune; git -C /verif worktree prune
 echo "done $P-$N tier=$TIER check_rc=$CHECK_RC"
